@@ -376,6 +376,8 @@ class Interp:
     def truth(self, v, node=None):
         if isinstance(v, (bool, int)) or v is None or isinstance(v, (list, tuple, dict, str)):
             return bool(v)
+        if type(v).__module__.startswith("sa.") and "__bool__" in type(v).__dict__:
+            return bool(v)  # a model object with a defined truth value (e.g. a concrete bit vector)
         raise AnalysisError(f"absint: truth value of abstract object needed in `{src(node) if node is not None else v}`")
 
     def iterate(self, v, node=None):
